@@ -506,6 +506,38 @@ def oracle_pipe(ck, rng):
     if half.shape != (6, 6, 6): fails.append("from_array resampled shape")
     lst_ = pipe.from_arrays([img, img * 2], original_scale=1.0)(2.0)
     if [a_.shape for a_ in lst_] != [(6, 6, 6)] * 2: fails.append("from_arrays")
+    # from_atoms: coordinates and centre are both nanometres (unit covariance; an explicit centre equal to the default changes nothing;
+    # moving atoms and centre together changes nothing)
+    atoms = rng.normal(size=(40, 3)) * 2.0
+    c0 = atoms.mean(axis=0) + np.array([0.3, -0.2, 0.1])
+    for sc in (1.0, 0.5, 2.0):
+        base = np.asarray(pipe.from_atoms(atoms, center=tuple(c0))(sc))
+        if base.sum() != 40: fails.append("from_atoms loses atoms")
+        for lam in (2.0, 0.25):
+            other = np.asarray(pipe.from_atoms(atoms * lam, center=tuple(c0 * lam))(sc * lam))
+            if other.shape != base.shape or not np.array_equal(other, base): fails.append(f"scale covariance from_atoms(center=...) at scale {sc}")
+        moved = np.asarray(pipe.from_atoms(atoms + 7.5, center=tuple(c0 + 7.5))(sc))
+        # (adding 7.5 is not exact in floating point: allow one atom to change bins)
+        if moved.shape != base.shape or np.abs(moved - base).sum() > 2: fails.append(f"from_atoms translation of atoms and centre at scale {sc}")
+        dflt = np.asarray(pipe.from_atoms(atoms)(sc))
+        expl = np.asarray(pipe.from_atoms(atoms, center=tuple(atoms.mean(axis=0)))(sc))
+        if dflt.shape != expl.shape or not np.array_equal(dflt, expl): fails.append(f"from_atoms default centre vs explicit mean at scale {sc}")
+    # converters have no memory and do not modify their parameters: the same converter evaluated twice gives the same image
+    v = np.array([1.0, -2.0, 0.5])
+    v0 = v.copy()
+    sh_ = pipe.shift(v, mode="constant")
+    imgs_ = rng.normal(size=(9, 9, 9)).astype(np.float32)
+    r1 = np.asarray(sh_(imgs_, 0.5)); r2 = np.asarray(sh_(imgs_, 0.5)); r3 = np.asarray(pipe.shift(tuple(v0), mode="constant")(imgs_, 0.5))
+    if not (np.array_equal(r1, r2) and np.array_equal(r1, r3) and np.array_equal(v, v0)): fails.append("converter call-history (shift)")
+    if not np.allclose(np.asarray((sh_ @ sh_)(imgs_, 0.5)), np.asarray(sh_(np.asarray(sh_(imgs_, 0.5)), 0.5)), atol=1e-6): fails.append("converter call-history (compose)")
+    for mk_, kw_ in ((pipe.gaussian_filter, dict(sigma=np.array([1.0, 1.0, 1.0]))),):
+        try:
+            arr_ = kw_["sigma"]; a0_ = arr_.copy()
+            cv_ = mk_(**kw_)
+            q1 = np.asarray(cv_(imgs_, 0.5)); q2 = np.asarray(cv_(imgs_, 0.5))
+            if not (np.array_equal(q1, q2) and np.array_equal(arr_, a0_)): fails.append("converter call-history (gaussian_filter)")
+        except TypeError:
+            pass
     # the batch provider behaves like the single one for every (original_scale, tol, scale): unchanged within tol, resampled beyond it
     for osc, tol_, sc in [(1.0, 0.1, 1.05), (1.0, 0.1, 0.93), (1.0, 0.001, 1.004), (0.5, 0.2, 0.58), (1.0, 0.01, 1.005), (1.0, 0.03, 1.2)]:
         one = pipe.from_array(img, original_scale=osc, tol=tol_)(sc)
